@@ -61,7 +61,7 @@ class Case:
 
 
 def make_reference(case: Case, seed: int, n_genes: int, sec_near_start: float = 0.0,
-                   context: float = 0.0):
+                   context: float = 0.0, sec_lys: float = 0.7):
     """fake genome + annotation (+ proteome by translation), written with the
     repository's writers as util/fuzz_test.py does."""
     _imports()
@@ -76,7 +76,7 @@ def make_reference(case: Case, seed: int, n_genes: int, sec_near_start: float = 
         for tx_id in list(anno.transcripts.keys()):
             if prng.random() < sec_near_start:
                 try:
-                    if plant_sec(anno, genome, prng, tx_id):
+                    if plant_sec(anno, genome, prng, tx_id, lys_prob=sec_lys):
                         case.meta.setdefault('planted_sec', []).append(tx_id)
                 except Exception:   # noqa
                     pass
@@ -998,7 +998,8 @@ def plant_context(anno, genome, rng: random.Random, tx_id: str):
     return None
 
 
-def plant_sec(anno, genome, rng: random.Random, tx_id: str, near_start: bool = True) -> bool:
+def plant_sec(anno, genome, rng: random.Random, tx_id: str, near_start: bool = True,
+              lys_prob: float = 0.7) -> bool:
     """turn one codon of a coding transcript into an annotated selenocysteine (genome base
     changed to TGA, `selenocysteine` feature added to the model) — close behind the start
     codon when `near_start`, so that Sec termination interacts with the start node, the
@@ -1034,7 +1035,7 @@ def plant_sec(anno, genome, rng: random.Random, tx_id: str, near_start: bool = T
             continue            # codon split by an intron
         nts = list(str(genome[chrom].seq))
         nts[lo:hi + 1] = list('TGA' if strand == 1 else 'TCA')
-        if near_start and k >= 5 and rng.random() < 0.7:
+        if near_start and k >= 5 and rng.random() < lys_prob:
             # a lysine between the start codon and the Sec: the Sec is then not in the first
             # cleavage fragment but within the miscleavage window of the start
             p2 = o0 + 3 * (k - rng.randint(2, min(4, k - 2)))
